@@ -156,3 +156,16 @@ ih!(c31_init_owner_three_inputs, {
     let all_same = x && y;
     init_case(alloc::vec![pred_input(A), signed_input(o2), signed_input(o3)], &[], if all_same { Some(0) } else { None })
 });
+
+// experiment: cost of one init on a fresh VM with a fully concrete transaction
+ih!(x31_fresh_concrete, {
+    let tx = Transaction::script(7, alloc::vec![1u8, 2, 3, 4], Vec::new(), Policies::new(),
+        alloc::vec![Input::coin_predicate(UtxoId::default(), A, 5, AssetId::zeroed(), TxPointer::default(), 9, alloc::vec![1u8, 2, 3, 4], alloc::vec![7u8])],
+        Vec::new(), Vec::new());
+    let program = RuntimePredicate::from_tx(&tx, TX_OFFSET, 0).unwrap();
+    let mut fresh = fresh_vm();
+    let r = fresh.init_predicate(Context::PredicateVerification { program }, tx, 100);
+    assert!(r.is_ok());
+    assert!(fresh.registers[R_HP] == VM_MAX_RAM);
+    core::mem::forget(fresh);
+});
